@@ -65,7 +65,7 @@ pub mod gen_os { include!("gen/os_image.rs"); }
 pub mod pstep;
 
 pub fn tables() -> Vec<&'static [(&'static str, fn())]> {
-    vec![c01::TABLE, c05::TABLE, c07::TABLE, c10::TABLE, c10::k::TABLE, c25::TABLE, c26::TABLE, c35::TABLE, c06::TABLE, c15::TABLE, c08::TABLE, c08::ir::TABLE, c09::TABLE, c13::TABLE, c14::TABLE, c16::TABLE, c27::TABLE, c28::TABLE, c32::TABLE, c32::mm::TABLE, c33::TABLE, c34::TABLE, probe::TABLE, pstep::TABLE]
+    vec![c01::TABLE, c05::TABLE, c07::TABLE, c10::TABLE, c10::k::TABLE, c10::bracket::TABLE, c25::TABLE, c26::TABLE, c35::TABLE, c06::TABLE, c15::TABLE, c08::TABLE, c08::ir::TABLE, c09::TABLE, c13::TABLE, c14::TABLE, c16::TABLE, c27::TABLE, c28::TABLE, c32::TABLE, c32::mm::TABLE, c33::TABLE, c34::TABLE, probe::TABLE, pstep::TABLE]
 }
 
 pub fn lookup(name: &str) -> Option<fn()> {
